@@ -23,7 +23,7 @@ Qed.
 
 Lemma raw_set_bounds_same s r : Inv s -> raw_set_bounds r (lb s r) (ub s r) s = s.
 Proof.
-  intros [A B C D E G H I J K]. rewrite raw_set_bounds_rsb. unfold rsb.
+  intros [A B B' C D E G H I J K]. rewrite raw_set_bounds_rsb. unfold rsb.
   destruct (split_bounds (lb s r) (ub s r)) as [[fl fu] [rl ru]] eqn:Es.
   apply st_ext; cbn; intros; try reflexivity.
   - unfold upd. destruct (Z.eqb_spec r0 r); subst; reflexivity.
@@ -128,7 +128,7 @@ Qed.
 
 Lemma oc_absent s n : Inv s -> vin s n = false -> oc s n = q0.
 Proof.
-  intros [A B C D E G H I J K] Hv. destruct n as [r [|]].
+  intros [A B B' C D E G H I J K] Hv. destruct n as [r [|]].
   - change (r, true) with (R r) in *. destruct (A r) as [_ A2]. destruct (E r) as [E1 E2].
     rewrite E1, (E2 ltac:(congruence)). apply opp_q0.
   - change (r, false) with (F r) in *. destruct (A r) as [A1 _]. destruct (E r) as [_ E2]. apply E2. congruence.
